@@ -10,9 +10,9 @@ are shared. Thm/C05.lean: independence at the model level (any automaton that re
 occurrences gives the same per-string result; re-checked every run).
 """
 import binascii, re
-from vf import core
+from vf import core, acbuild
 
-THM = ["YaraModel.Thm.C05", "YaraModel.Thm.C05Cond", "YaraModel.Thm.AcCert"]
+THM = ["YaraModel.Thm.C05", "YaraModel.Thm.C05Cond", "YaraModel.Thm.AcCert", "YaraModel.Thm.AcBuild"]
 MANIFEST = dict(
     technique="Lean 4 theorem (per-string result is a function of the string and the buffer for EVERY candidate stage meeting the automaton contract) + alone-vs-company / permutation / prefix / source-split differential on the real compiler and scanner",
     text="proof: Thm/C05.lean proves that the modelled per-string result (offsets, admissible lengths/keys) is the same for ANY two candidate stages that each report exactly the occurrences "
@@ -160,6 +160,9 @@ def run(tier, replay=None):
     lres = core.lean_check(THM)
     core.proof_coverage(chk, lres, THM)
     b = core.build("asan", harness=["h_scan"])
+    if replay and replay.get("acbuild"):                 # a filed construction mismatch: recompile that rule set, rebuild, compare
+        core.handle_broken_proof(chk, lres, acbuild.replay(chk, b, replay))
+        return chk.finish("proof")
     r = core.rng("C05")
     ng = 60 if tier == "quick" else 2500
     lines, plan = [], []          # plan: (group, rule idx, variant name, line id, reference line id)
@@ -240,6 +243,12 @@ def run(tier, replay=None):
                                                                      "driver": l, "engine": "ac"}, no_input=True)
                 found = True
     chk.cov["ac_certificate"] = {"company_tables_checked": len(acl), "cert_ok": ac_ok}
+    if lres.get("driver_ok"):
+        # construction tie (Thm/AcBuild): the Lean model of ahocorasick.c must build EXACTLY the shared tables from the logged atoms
+        found = acbuild.report(chk, acbuild.compare(outs), {x.split(" ", 1)[0]: x for x in lines}, "company") or found
+        chk.cov["ac_certificate"]["construction_model_equal"] = dict(acbuild.compare.last)
+        if not replay:
+            found = acbuild.run_extra(chk, b, core.rng("C05-acbuild"), "mixed", tier) or found
     nviol, hist, nontriv = 0, {}, set()
     lm = {l.split(" ", 1)[0]: l for l in lines}
     for g, i, variant, lid, ref in plan:
